@@ -35,7 +35,7 @@ def gates(tier):
         "min_decided": {APIS[0]: 30000 * k, APIS[1]: 1500 * k},
         "shapes": {c: 5 * k for c in ["node:cls", "node:negcls", "node:dot", "node:sh", "node:alt", "node:rep", "node:ci", "node:range",
                                       "node:bounded", "charset:symbols", "charset:cased", "charset:newline", "ci:multichar-case-mapping",
-                                      "escaped-metachar", "second-pattern-same-charset-object"]} | {"long-repetition": 1},
+                                      "escaped-metachar", "second-pattern-same-charset-object", "charset:big-core", "charset:big-set"]} | {"long-repetition": 1},
         "min_hashseeds": 2,
     }
 
@@ -55,6 +55,21 @@ def gen_case(rng, spec):
     if mode == "cased":
         cs |= set(rng.sample(CASED, rng.randint(1, 3))) | {"s", "S"}
     cs = sorted(cs)
+    big = None
+    if rng.random() < 0.08:
+        # scale: the default character set (charset="core": the 100 printable ASCII characters) or a set of 49-110
+        # characters: a negated class or a dot fans out into ~50-100 arcs from one state (1/K arc weights with K >= 49)
+        import string
+
+        if rng.random() < 0.5:
+            big = "core"
+            cs = sorted(string.printable)
+        else:
+            # (no non-ASCII letters or digits: \w / \d / \s are ASCII classes for interegular and Unicode classes for `re`,
+            # a dialect difference between the two engines, not a property of the automaton)
+            pool = sorted(set(string.printable) | {c for c in "€→☃★♥♦✓✗«»¿¡§¶†‡•…‰′″‹›←↑↓⇒∀∃∅∈∉∑∏√∞≈≠≤≥" if not (c.isalnum() or c.isspace())})
+            big = "set"
+            cs = sorted(set(rng.sample(pool, rng.randint(49, 110))) | set(cs[:3]))
     allow_sh = mode != "cased"
 
     def ch():
@@ -108,7 +123,7 @@ def gen_case(rng, spec):
     ast2 = ["cat", [rng.choice([["dot"], cls()]), node(rng.randint(0, 2))]]
     if ast2[1][0][0] == "cls":
         ast2[1][0][2] = True
-    return {"ast": ast, "ast2": ast2, "charset": cs, "maxlen": 3 if spec.get("tier") == "quick" else 4}
+    return {"ast": ast, "ast2": ast2, "charset": cs, "maxlen": 3 if spec.get("tier") == "quick" else 4, "big": big}
 
 
 def features(n, acc):
@@ -181,6 +196,8 @@ def run_case(case, ctx):
     if case.get("long_pattern"):
         return run_long(case, ctx)
     shared = set(case["charset"])  # one set object for all patterns of the case
+    if case.get("big") == "core":
+        shared = "core"
     run_pattern(case, ctx, case["ast"], shared, first=True)
     if case.get("ast2") is not None:
         ctx.shape["second-pattern-same-charset-object"] += 1
@@ -214,7 +231,18 @@ def run_pattern(case, ctx, ast, shared, first):
     n = case["maxlen"]
     if len(cs) > 9:
         n = min(n, 3)
-    strings = ["".join(t) for L in range(n + 1) for t in itertools.product(cs, repeat=L)]
+    if case.get("big"):
+        # every single character, every pair (subset x all), and all strings up to the bound over a 7-character subset
+        import random as _random
+
+        feats.add("charset:big-" + case["big"])
+        srng = _random.Random(len(pattern) * 31 + len(cs))
+        lits = [c for c in pattern if c in cs]
+        sub = sorted(set(srng.sample(cs, 5)) | set(lits[:4]))[:8]
+        strings = [""] + list(cs) + [a + b for a in sub for b in cs] + ["".join(t) for L in range(3, n + 1) for t in itertools.product(sub, repeat=L)]
+        strings = list(dict.fromkeys(strings))
+    else:
+        strings = ["".join(t) for L in range(n + 1) for t in itertools.product(cs, repeat=L)]
     want = {}
     for s in strings:
         a = rx.fullmatch(s) is not None
